@@ -148,7 +148,7 @@ Print Assumptions C03_F3_refuted.
 
 Theorem C03_F5_pinned_refuted :
   exists ds q k s segs caps sc es t,
-    load ds = Loaded es t /\ guard_F5 true true true eng_none es t q = true /\
+    load false ds = Loaded es t /\ guard_F5 true true true eng_none es t q = true /\
     served true false true true ds q = Some (ORule 1 caps false, [k]) /\
     nth_error (flat_routes 0 ds) (k_vid k) = Some s /\
     sr_segs s q = Some segs /\
@@ -160,7 +160,7 @@ Print Assumptions C03_F5_pinned_refuted.
 
 Theorem C03_F5_pinned_panic_refuted :
   exists ds q k es t,
-    load ds = Loaded es t /\ guard_F5 true true true eng_none es t q = true /\
+    load false ds = Loaded es t /\ guard_F5 true true true eng_none es t q = true /\
     served true false true true ds q = Some (OPanic, [k]) /\ k_res k = MPanic.
 Proof. exact F5_pinned_panic_refuted. Qed.
 Print Assumptions C03_F5_pinned_panic_refuted.
